@@ -177,6 +177,10 @@ def eval_case(case: dict) -> dict:
     gen, ent, enc, info = cfggen.gen_shell_case(rng, want_multiclient=case['stream'] % 3 == 0,
                                                 mc_shape=case['stream'] // 3,
                                                 name_families=0.5 if case['stream'] % 2 else 0.15)
+    if case['stream'] % 4 == 1:
+        # the model of a large project: a few hundred declarations around the part under test
+        gen.add_padding(130 + 40 * (case['stream'] % 3))
+        cnt['models_with_more_than_128_declarations'] = 1
     # prefer rerouted ports so that formal types are resolved
     if case['stream'] % 2 == 0 and not enc.get('multiclient'):
         enc['provides'] = {'sts': 'NONE', 'mts': 'ALL'}
@@ -351,7 +355,7 @@ def main(tier: str) -> int:
     # the online observer hooks ast_view.find_fqn where the builder imports it; a library that
     # resolves names through another entry point is still decided by the build-level verdicts
     # and the compiled sample, so the observer's count is reported, not required
-    run.require('builds', 'emitted_types_checked', 'spec_unique',
+    run.require('builds', 'models_with_more_than_128_declarations', 'emitted_types_checked', 'spec_unique',
                 'spec_several', 'spec_none', 'spec_wrong-kind', 'site_port-type',
                 'site_formal-type', 'site_claim-reply', 'programs_type_checked',
                 'spellings_of_shared_simple_names', 'constructed_ambiguities',
